@@ -187,6 +187,17 @@ def run(R):
                 R.mon["boundary_bulkwalks"] += 1
                 if ys is not None and bulk == 3:
                     run_one(R, "v3-sha1-priv", roots, db, "pybulkwalk", bulk, policy, 5, label)
+            # ... and with bulk_size left at its default
+            run_one(R, "v2c", roots, db, "bulkwalk", None, "full", 5, label)
+            R.mon["bulkwalks_with_the_default_bulk_size"] += 1
+        # the default bulk size with 1..40 roots (raw client and wrapper)
+        for n in (1, 2, 5, 9, 10, 11, 12, 20, 40):
+            roots = [(1, 3, 6, 1, 4, 1, 88, r) for r in range(1, n + 1)]
+            db = {r + (i,): ("int", i) for r in roots for i in range(1, 4)}
+            db[(1, 3, 6, 1, 4, 1, 89, 0)] = ("int", 0)
+            for api, policy in (("bulkwalk", "full"), ("pybulkwalk", "full"), ("bulkwalk", "fewer")):
+                run_one(R, "v2c", roots, db, api, None, policy, 7, "default-bulk-size")
+                R.mon["bulkwalks_with_the_default_bulk_size"] += 1
     if R.shard == 3 % R.nshards:
         # responses cut below one row only ONCE (later ones complete), a buffer that holds
         # one binding per response, and a device that reboots in the middle of the walk
